@@ -23,7 +23,8 @@ RULE = ("(names) Hypothesis expression trees over a confusable vocabulary (names
         "never parsed; every call's outcome (names, value, or error type+message) must equal the outcome of the same "
         "call made first in a pristine process and, for parse, on a freshly constructed MathParser. Non-trivial iff a "
         "failing call precedes a succeeding one or a cache key repeats. (history-inf) EXHAUSTIVE sequences of length <= 3 over 6 strings (three overflowing constants, one 120-deep nesting that dies with RecursionError) x {evaluator, evaluator with allow_inf=True, parse}, plus all pairs over 8 strings x {evaluator, allow_inf evaluator, parse, FormulaGrader call}. (random) longer sequences (<= 40 calls incl. "
-        "FormulaGrader calls) over generated strings. Distinct by spec hash.")
+        "FormulaGrader calls) over generated strings. Distinct by spec hash."
+        " history-inf also walks the same strings across scopes (scalar, vector-valued with other suffix / function values, max_array_dim=1); the names vocabulary contains inf / nan / infinity-like names; 'names-fuzz' (thorough): coverage-guided campaign.")
 ASSUMPTIONS = ["pool workers are forked from a parent that has imported the library but never parsed (the parser cache "
                "is empty after import); each history case runs in its own forked child, so cases do not see each other",
                "callers do not mutate the sets returned by parse() (no caller in the library does)"]
